@@ -75,4 +75,63 @@ theorem getIPInfoFromIP_tie (get : Opaque "ipinfo.IPInfoMap" → List UInt8 → 
         · by_cases hc : (get ip2info ip).1.CountryCode = "" <;> simp [h0, h1, h1', hg, hgu, hc]
         · simp [h0, h1, h1', hg, hgu]
 
+/-! ### GetIPInfoFromAddr: from a client address to its class -/
+
+section
+variable (str : Opaque "net.Addr" → String) (get : Opaque "ipinfo.IPInfoMap" → List UInt8 → Code.IPInfo × Option String)
+  (idx : String → UInt8 → Int) (parseIP : String → List UInt8) (split : String → String × String × Option String)
+
+/-- the host after the zone of a scoped IPv6 address has been dropped -/
+def hostOf (h : String) : String :=
+  if idx h 37 ≥ 0 then (GoRT.strSlice h 0 (idx h 37)).getD h else h
+
+/-- how the client address parses, in the model's terms -/
+def parsedOf (addr : Opaque "net.Addr") : IPInfo.Parsed :=
+  if addr = ⟨0⟩ then .nilAddr
+  else if (split (str addr)).2.2 ≠ none then .noHostPort
+  else if parseIP (hostOf idx (split (str addr)).1) = [] then .notIP
+  else .ip (parseIP (hostOf idx (split (str addr)).1))
+
+/-- **GetIPInfoFromAddr**: as long as `IndexByte` answers an offset inside the string, the translated function never panics
+    and the label and error flag are the model's `fromAddr` of the parse outcome: XA for a nil address, a host:port that
+    does not split, or a host that is no IP literal (after dropping an IPv6 zone); otherwise the class of the IP -/
+theorem getIPInfoFromAddr_tie (ip2info : Opaque "ipinfo.IPInfoMap") (addr : Opaque "net.Addr")
+    (hidx : ∀ h, idx h 37 ≤ GoRT.strLen h) :
+    (Code.GetIPInfoFromAddr str get idx parseIP split ip2info addr).map (fun r => (r.1.CountryCode, r.2.isSome)) =
+      some ((IPInfo.fromAddr (dbOf get ip2info (parseIP (hostOf idx (split (str addr)).1))) (parsedOf str idx parseIP split addr)).label,
+            (IPInfo.fromAddr (dbOf get ip2info (parseIP (hostOf idx (split (str addr)).1))) (parsedOf str idx parseIP split addr)).isErr) := by
+  unfold Code.GetIPInfoFromAddr parsedOf
+  by_cases h0 : addr = ⟨0⟩
+  · simp [h0, IPInfo.fromAddr, Code.IPInfo.zero]
+  · by_cases h1 : (split (str addr)).2.2 ≠ none
+    · simp [h0, h1, IPInfo.fromAddr, Code.IPInfo.zero]
+    · simp only [h0, h1, decide_false, decide_true, Bool.false_eq_true, if_false, ne_eq, not_true_eq_false, not_false_eq_true]
+      generalize hH : (split (str addr)).1 = H
+      have hslice : idx H 37 ≥ 0 → GoRT.strSlice H 0 (idx H 37) = some (hostOf idx H) := by
+        intro hge
+        have hb : ¬ ((0 : Int) < 0 ∨ idx H 37 < 0 ∨ GoRT.strLen H < idx H 37) := by
+          have := hidx H; omega
+        simp only [hostOf, hge, if_true, GoRT.strSlice, hb, if_false, Option.getD_some]
+      have key : ∀ (hn : String), hn = hostOf idx H →
+          ((if decide (parseIP hn = []) = true then
+              (pure ({ Code.IPInfo.zero with CountryCode := "XA" }, some "failed to parse address as IP") : Option (Code.IPInfo × Option String))
+            else Code.GetIPInfoFromIP get ip2info (parseIP hn)).map (fun r => (r.1.CountryCode, r.2.isSome))) =
+          some ((IPInfo.fromAddr (dbOf get ip2info (parseIP (hostOf idx H)))
+                  (if parseIP (hostOf idx H) = [] then IPInfo.Parsed.notIP else IPInfo.Parsed.ip (parseIP (hostOf idx H)))).label,
+                (IPInfo.fromAddr (dbOf get ip2info (parseIP (hostOf idx H)))
+                  (if parseIP (hostOf idx H) = [] then IPInfo.Parsed.notIP else IPInfo.Parsed.ip (parseIP (hostOf idx H)))).isErr) := by
+        intro hn hhn
+        subst hhn
+        by_cases hp : parseIP (hostOf idx H) = []
+        · simp [hp, IPInfo.fromAddr, Code.IPInfo.zero]
+        · simp only [hp, decide_false, Bool.false_eq_true, if_false, IPInfo.fromAddr]
+          exact getIPInfoFromIP_tie get ip2info (parseIP (hostOf idx H))
+      by_cases hi : idx H 37 ≥ 0
+      · simp only [hi, decide_true, if_true, hslice hi, Option.bind_eq_bind, Option.bind_some]
+        exact key (hostOf idx H) rfl
+      · simp only [hi, decide_false, Bool.false_eq_true, if_false]
+        have hh : H = hostOf idx H := by simp [hostOf, hi]
+        exact key H hh
+end
+
 end OutlineModel.Tie.IP
